@@ -388,6 +388,9 @@ def exit_obligations(V, outs, entry, is_gen):
             env = dict(entry.env)
             env['result'] = val
             env['EFFECTS'] = st.ghost.get('effects') or SV(SeqT(STR), z3.Empty(sort_of(SeqT(STR))))
+            for fn_ in c.free:
+                if fn_ in st.env and not isinstance(st.env[fn_], (MFn, MCls, MNS, MU)):
+                    env['NEW_' + fn_] = st.env[fn_]      # final value of a closure/global variable
             if c.yield_key and is_gen:
                 ks = st.ghost.get('ykeys')
                 if ks is None:
